@@ -1100,13 +1100,17 @@ fn main() {
         let auto = mi % 3 != 0;
         // every 4th case (and the two corpus cases first): trained codebook, 2-dimensional deltas
         let trained = mi < 2 || mi % 4 == 3;
-        let c = if trained { mk_codebook(next_seed(), 8) } else { mk(next_seed(), 8, 0, auto) };
+        // every 5th case (and corpus case 2): a block limit that each workspace meets alone but a merged batch exceeds
+        let tight = mi == 2 || (mi > 2 && mi % 5 == 4 && !trained);
+        let limit = if tight { rng.range(2, 3) } else { 8 };
+        let c = if trained { mk_codebook(next_seed(), 8) } else { mk(next_seed(), limit, 0, auto || tight) };
+        let auto = auto || tight;
         let auto = auto || trained;
         let mut uniq = 0u8;
         let nws = if mi < 2 { 2 } else { rng.range(2, 4) as usize };
         let wss: Vec<Vec<Tx>> = (0..nws)
             .map(|_| {
-                let ntx = if mi >= 2 && rng.chance(1, 8) { 0 } else { rng.range(1, 2) as usize };
+                let ntx = if tight { 2 } else if mi >= 2 && rng.chance(1, 8) { 0 } else { rng.range(1, 2) as usize };
                 let kr = if rng.chance(1, 2) { 2 } else { kk };
                 gen_txs_unique(&mut rng, kr, ntx, &mut uniq)
             })
@@ -1115,6 +1119,10 @@ fn main() {
         let mut dirs: Vec<Option<usize>> = (0..nws)
             .map(|_| if rng.chance(1, 5) { None } else { Some(rng.below(if trained { 2 } else { 3 }) as usize) })
             .collect();
+        if mi == 2 {
+            // corpus (seeded C16-r5-3 shape): two orthogonal workspaces of 2 operations each, limit 2 or 3
+            dirs = (0..nws).map(|i| Some(i % 3)).collect();
+        }
         if mi < 2 {
             // corpus (seeded C16-r3-2 shape): A along the centroid, B orthogonal; commit(A) must not carry B's operations
             dirs = vec![Some(0), Some(1)];
@@ -1138,7 +1146,7 @@ fn main() {
                 w
             })
             .collect();
-        let concurrent = mi >= 2 && if trained { (mi / 4) % 2 == 1 } else { mi % 2 == 1 };
+        let concurrent = mi > 2 && if trained { (mi / 4) % 2 == 1 } else { mi % 2 == 1 };
         let mut order: Vec<usize> = (0..nws).collect();
         if mi >= 2 {
             rng.shuffle(&mut order);
@@ -1179,6 +1187,9 @@ fn main() {
         let n = c.chain.height();
         let chain_txs: Vec<Vec<Tx>> = (1..=n).map(|h| c.block(h).map(|b| b.transactions.iter().filter_map(Tx::of).collect()).unwrap_or_default()).collect();
         let merged_blocks = chain_txs.iter().filter(|b| wss.iter().filter(|l| !l.is_empty() && b.len() > l.len() && b.windows(l.len()).any(|w| w == &l[..])).count() >= 2).count();
+        if tight {
+            dist.hit("merge.tight_block_limit");
+        }
         dist.hit(&format!("merge.auto_{}.{}{}", auto, if concurrent { "concurrent" } else { "sequential" }, if trained { ".trained_codebook" } else { "" }));
         for w in &works {
             dist.hit(&format!("merge.final_state.{:?}", w.state()));
@@ -1379,6 +1390,8 @@ fn main() {
         let mut uniq = 0u8;
         let mut outs: Vec<(Vec<(u64, [u8; 32])>, Vec<Option<Vec<u8>>>)> = vec![];
         let mut offered_desc: Vec<(Vec<Tx>, bool, Raw)> = vec![];
+        let mut only: Vec<u64> = vec![]; // per offered block: 0 = both replicas, 1 = replica 0 only, 2 = replica 1 only
+        let mut init_roots: Vec<[u8; 32]> = vec![];
         if shared {
             let mut blocks: Vec<(Block, Vec<Tx>)> = vec![];
             for _ in 0..nb {
@@ -1401,15 +1414,18 @@ fn main() {
                     bad.header.state_root[3] ^= 0x55;
                     offered.push(bad);
                     offered_desc.push((l.clone(), false, Raw::good(b.header.timestamp, vec![])));
+                    only.push(0);
                     dist.hit("replay.shared.corrupt_root");
                 }
                 offered.push(b.clone());
                 offered_desc.push((l.clone(), bi == 0, Raw::good(b.header.timestamp, vec![])));
+                only.push(0);
                 dist.hit("replay.shared.leader_block");
             }
             std::thread::sleep(Duration::from_millis(3));
             for _ in 0..2 {
                 let rep = mk_replica(&image, &c.me, true);
+                init_roots.push(tensor_chain::compute_state_root(&rep.store).unwrap());
                 let mut rs = vec![];
                 for b in &offered {
                     let r = rep.sm.apply_block(b);
@@ -1423,6 +1439,10 @@ fn main() {
             let reps = [mk_replica(&image, &c.me, false), mk_replica(&image, &c.me, false)];
             let oracle = TensorStore::new(); // harness-side mirror of the accepted state
             let mut seen: Vec<Tx> = vec![];
+            let mut delivered: Vec<(Block, Vec<Tx>)> = vec![];
+            for rep in reps.iter() {
+                init_roots.push(tensor_chain::compute_state_root(&rep.store).unwrap());
+            }
             let mut rs: [Vec<(u64, [u8; 32])>; 2] = [vec![], vec![]];
             let mut ts = gts;
             let nb = nb + 2;
@@ -1438,6 +1458,10 @@ fn main() {
                     };
                     let pos = rng.below(l.len() as u64 + 1) as usize;
                     l.insert(pos, t);
+                }
+                if ri == 5 && bi < 3 {
+                    // corpus (seeded C16-r5-2 shape): b1 and b2 write the same key, then b1 is delivered AGAIN to one replica
+                    l = [vec![Tx::Put(0, vec![1])], vec![Tx::Put(0, vec![2])], vec![Tx::Put(1, vec![3])]][bi].clone();
                 }
                 if ri == 1 && bi < 3 {
                     // corpus: the same TableInsert (identical payload) in two blocks, then twice in one block
@@ -1467,12 +1491,13 @@ fn main() {
                     }),
                 };
                 let corpus_fast = ri == 3 && bi < 4;
+                let corpus_redeliver = ri == 5 && bi < 3;
                 if corpus_fast {
                     // corpus (seeded C16-r4-3 shape): good block with embedding e; then a FALSE root with a similar
                     // embedding; then a good one; then another false root
                     emb = Some(vec![1.0, if bi % 2 == 1 { 0.01 } else { 0.0 }, 0.0, 0.0]);
                 }
-                match if corpus_fast { if bi % 2 == 1 { 0 } else { 7 } } else { rng.below(8) } {
+                match if corpus_fast { if bi % 2 == 1 { 0 } else { 7 } } else if corpus_redeliver { 7 } else { rng.below(8) } {
                     0 => {
                         root[5] ^= 1;
                         good = false;
@@ -1532,7 +1557,30 @@ fn main() {
                 }
                 let mut dd = d.clone();
                 dd.txs = vec![];
-                offered_desc.push((l, good, dd));
+                offered_desc.push((l.clone(), good, dd.clone()));
+                only.push(0);
+                if acc {
+                    delivered.push((blk.clone(), l.clone()));
+                }
+                // an EARLIER accepted block delivered again (duplicate / out of order) to ONE replica between good blocks
+                if delivered.len() >= 2 && ((corpus_redeliver && bi == 1) || (!corpus_redeliver && rng.chance(1, 4))) {
+                    let pick = if corpus_redeliver { 0 } else { rng.below(delivered.len() as u64 - 1) as usize };
+                    let (ob, ol) = delivered[pick].clone();
+                    let who = if corpus_redeliver { 0 } else { rng.below(2) as usize };
+                    for (ri2, rep) in reps.iter().enumerate() {
+                        if ri2 == who {
+                            let r = rep.sm.apply_block(&ob);
+                            let rt = tensor_chain::compute_state_root(&rep.store).unwrap();
+                            rs[ri2].push((code(&r), rt));
+                        } else {
+                            let rt = tensor_chain::compute_state_root(&rep.store).unwrap();
+                            rs[ri2].push((99, rt));
+                        }
+                    }
+                    dist.hit("replay.separate.redelivered_to_one_replica");
+                    offered_desc.push((ol, false, dd));
+                    only.push(who as u64 + 1);
+                }
             }
             for (i, rep) in reps.iter().enumerate() {
                 outs.push((rs[i].clone(), rdump(&rep.store, kk)));
@@ -1565,7 +1613,7 @@ fn main() {
             }
         }
         let t = format!(
-            "({}, ({}, {}, {}, {}, {}, {}, {}, {}, ({}, {})))",
+            "({}, ({}, {}, {}, {}, {}, {}, {}, {}, ({}, {}), {}, ({}, {})))",
             c.extra,
             kk,
             gts,
@@ -1576,7 +1624,10 @@ fn main() {
             dump_coq(&outs[0].1),
             dump_coq(&outs[1].1),
             idof(&direct[0]),
-            idof(&direct[1])
+            idof(&direct[1]),
+            list(only.iter().map(|x| n_(*x))),
+            idof(&init_roots[0]),
+            idof(&init_roots[1])
         );
         replay.push(
             &t,
